@@ -429,11 +429,13 @@ class AudioThread(threading.Thread):
       #Below is a faster way to call:
       #  self.stream.write(chunk, self.chunk_size)
       self.write_stream(st, chunk, self.chunk_size, False)
+      if self.halting:
+        break
       if not self.go.is_set():
         self.stream.stop_stream()
+        self.go.wait() # Paused until "play" or "stop" is called
         if self.halting:
           break
-        self.go.wait()
         self.stream.start_stream()
 
     # Finished playing! Destructor-like step: let's close the thread
@@ -446,7 +448,7 @@ class AudioThread(threading.Thread):
     """ Stops the playing thread and close """
     with self.lock:
       self.halting = True
-      self.go.clear()
+      self.go.set() # Wakes the thread up if paused, so it sees the message
 
   def pause(self):
     """ Pauses the audio. """
